@@ -187,6 +187,18 @@ func (v *FnVC) exec(fr *frame, st *State, ins ssa.Instruction) {
 			}
 		}
 		v.storeThrough(st, p, et, v.value(fr, x.Val))
+		if al, isAl := x.Addr.(*ssa.Alloc); isAl {
+			if _, isSig := under(et).(*types.Signature); isSig && v.w.singleStoreCell(al) {
+				// a function value kept in a cell that is written once (a parameter that closures capture): loads give
+				// back the value itself, so that a call through it is recognised as a call through the parameter
+				if ps, ok := p.(Sc); ok {
+					if v.constCells == nil {
+						v.constCells = map[string]Val{}
+					}
+					v.constCells[ps.T.S] = v.value(fr, x.Val)
+				}
+			}
+		}
 	case *ssa.If:
 		c := v.value(fr, x.Cond).(Sc).T
 		c = v.sc.Define("cond", c)
@@ -756,6 +768,9 @@ func (v *FnVC) unop(fr *frame, st *State, x *ssa.UnOp) Val {
 		}
 		if ps, ok := a.(Sc); ok {
 			v.safe(fr, "nil", x, Not(Eq(ps.T, tZero)))
+			if cv, ok := v.constCells[ps.T.S]; ok {
+				return cv
+			}
 		}
 		res := v.deref(st, a, et, reach)
 		v.childInvariants(fr, st, x, res, reach)
